@@ -139,6 +139,8 @@ class Ctx:
             cov["checker_cmd"] = self.proof["checker_cmd"]
             cov["theorems"] = self.proof["theorems"]
             cov["axioms_reported"] = self.proof["axioms"]
+            if "coqchk" in self.proof:
+                cov["coqchk"] = self.proof["coqchk"]
         if self.notes:
             cov["notes"] = self.notes
         if not cov["samples"]:
